@@ -187,7 +187,11 @@ CHECKS["C16"] = dict(
          "two switches per boolean with dest = path; an empty command line overrides nothing; an override leaves every top-level key "
          "untouched that is not the first component of a supplied, non-ignored option (fold induction over the namespace, using the C01 "
          "frame theorem). Correspondence: real get_all_fields / schema[path] / item_ref_path / membership / chained access, the real "
-         "generated ArgumentParser's actions, and random command lines x ignore lists through the real parser and cmdline_args_override.",
+         "generated ArgumentParser's actions, and random command lines x ignore lists through the real parser and cmdline_args_override; fields and "
+         "sections constructed with an explicit key=; option texts the field normalises (other case, blanks, numbers as text) against declared "
+         "choices / bounds; chains of sections five levels deep."
+         " Continuation (Props/C16b.lean): the reading of generate_argparse_parser regenerated on every run — every add_argument call passes only "
+         "action/dest/help/metavar/default=None, so argparse neither converts nor restricts nor supplies values (parser_adds_nothing).",
     note=CFG_NOTE + " argparse itself (exact long options, --opt=value, switches) is CPython's; abbreviations and option-like values are "
          "outside the model. Known finding F17: enumeration on a nested (keyed) schema yields paths that do not resolve on it.",
     technique="Lean 4 proof (mutual structural recursion over schemas; fold induction) + model/implementation correspondence",
